@@ -96,9 +96,11 @@ def run(ctx):
         'C11.one-step: on every accepting row the effects are exactly prepare_integration_select(<gate integration>, <analysed query>) '
         'followed by one add_step(FetchDataframeStep(integration=<gate integration>, query=<analysed query>)) and the caller returns at '
         'once (from_query returns self.plan, PlanJoin.plan returns the step) - on refusing rows no effect at all; '
-        'C11.rewrite-write-set: the rewrite callback stores only node.parts (pop(0) under len > 1 and the normalised comparison, with '
-        'no guard that reads anything but the identifier itself) and node.alias (under is_target / alias is None / not a join, value = '
-        'last part), returns None on every path; C11.walker: C13\'s walker analysis is re-run and its findings are qualifier-strip holes.')
+        'C11.rewrite-write-set: the rewrite callback stores nothing but node.parts and node.alias and returns None on every path; '
+        'C11.rewrite-table: prepare_integration_select interpreted on ~480 probe identifiers (shape x position flags x alias x FROM kind x '
+        'another table aliased like the integration) removes exactly the integration qualifier and adds exactly the output-name alias; '
+        'C11.classification: get_query_info interpreted on 13 probe queries (CTE names, projects, integrations in any letter case); '
+        'C11.walker: C13\'s walker analysis is re-run and its findings are qualifier-strip holes.')
     ctx.not_decided = ['meaning preservation of the qualifier removal for every query (needs SQL scope resolution)',
                        'execution on the integration']
     tq = ctx.src.tree(QP)
